@@ -161,7 +161,9 @@ impl Ctx {
         if self.evaluations == 0 {
             self.inconclusive.push("no case was executed".into());
         }
-        if self.nontrivial.len() < 2 {
+        // the Miri stage re-runs a drastically reduced workload next to the native run of the same check,
+        // which enforces the diversity rule; under the interpreter only "something ran" is required
+        if self.nontrivial.len() < 2 && !cfg!(miri) {
             self.inconclusive.push(format!("only {} distinct non-trivial cases observed", self.nontrivial.len()));
         }
         let mut cov = Map::new();
